@@ -96,11 +96,14 @@ POSITIONS = [
     ('P12v', 'define-value', 'flags-var'),
     ('P13i', 'include-dir', 'flags-var-path'),
     ('P13l', 'lib-dir', 'flags-var-path'),
+    ('P14f', 'file-argument', 'file-arg'),
+    ('P16p', 'install-prefix', 'install-path'),
     ('P15c', 'env-CFLAGS', 'flags-var'), ('P15p', 'env-CPPFLAGS', 'flags-var'),
     ('P15l', 'env-LDFLAGS', 'flags-var'), ('P15b', 'env-LDLIBS', 'flags-var'),
 ]
 POS = {p[0]: p for p in POSITIONS}
-DIR_POS = {'P13i', 'P13l'}
+DIR_POS = {'P13i', 'P13l', 'P16p'}
+FILE_POS = {'P14f'}
 
 
 def placeholder(i):
@@ -138,12 +141,13 @@ def render(src, v, shape):
         "libd = directory({})".format(r(v['P13l'] + '/')),
         "slib = static_library('slib', ['lib.c'])",
         "shl = shared_library('shl', ['shl.c'])",
-        "executable('prog', ['main.c'], includes=[inc], libs=[slib, shl], "
+        "vprog = executable('prog', ['main.c'], includes=[inc], "
+        "libs=[slib, shl], "
         "compile_options=[{}, {}, opts.define('D12', {})], "
         "link_options=[{}, opts.lib_dir(libd)])".format(
             r('-DC7A=' + v['P7a']), r('-DC7B=' + v['P7b']), r(v['P12v']),
             r('-Wl,--l9a=' + v['P9a'])),
-        "executable('prog2', ['main2.c'], compile_options={}, "
+        "vprog2 = executable('prog2', ['main2.c'], compile_options={}, "
         "link_options={})".format(
             r(strquote('-DC8A=' + v['P8a']) + ' ' +
               strquote('-DC8B=' + v['P8b'])),
@@ -159,6 +163,10 @@ def render(src, v, shape):
         "build_step('p4.out', cmd=['rec', 'P4', '--vf-out=p4.out', {}, {}], "
         "environment={{'VFENV3': {}}})".format(r(v['P4w1']), r(v['P4w2']),
                                               r(v['P4e'])),
+        "command('p14', cmd=['rec', 'P14', command.input], files=[{}])"
+        .format(r(v['P14f'] + '.in')),
+        "install(executable('iprog', ['main2.c']))",
+        "default(vprog, vprog2)",
         "test(['rec', 'P5', {}], environment={{'VFENV4': {}}})".format(
             r(v['P5w']), r(v['P5e'])),
         "drv = test_driver(['drv', 'P6', {}], environment={{'VFENV5': {}}}, "
@@ -173,6 +181,7 @@ def render(src, v, shape):
         sandbox.write_file(os.path.join(src, f), 'int x;\n')
     os.makedirs(os.path.join(src, v['P13i']), exist_ok=True)
     os.makedirs(os.path.join(src, v['P13l']), exist_ok=True)
+    sandbox.write_file(os.path.join(src, v['P14f'] + '.in'), 'x\n')
 
 
 def configure_env(v):
@@ -185,7 +194,8 @@ def configure_env(v):
     }
 
 
-TARGETS = ['p1', 'p2', 'p3', 'p3s', 'p4.out', 'prog', 'all', 'test']
+TARGETS = ['p1', 'p2', 'p3', 'p3s', 'p4.out', 'p14', 'prog', 'all', 'test',
+           'install']
 
 
 def run_template(backend, v, shape, tmp):
@@ -199,7 +209,9 @@ def run_template(backend, v, shape, tmp):
                            extra=configure_env(v))
     status = {}
     r = sandbox.configure(src, bld, env, backend=backend,
-                          extra=['--enable-static', '--enable-shared'])
+                          extra=['--enable-static', '--enable-shared',
+                                 '--prefix=' + os.path.join(tmp, 'root',
+                                                            v['P16p'])])
     status['configure'] = r
     logs = {}
     if r.rc != 0:
@@ -421,11 +433,13 @@ OWNERS = {
     'prog': GLOBAL_LINK | {'P9a', 'P13l'},
     'prog2': GLOBAL_LINK | {'P9s'},
     'libshl.so': GLOBAL_LINK,
+    'iprog.int/main2.o': GLOBAL_COMPILE,
+    'iprog': GLOBAL_LINK,
 }
 
 
 LINK_LIBS = {'prog': {'./libslib.a', './libshl.so'}, 'prog2': set(),
-             'libshl.so': set()}
+             'libshl.so': set(), 'iprog': set()}
 
 
 def ownership_violation(backend, shape):
@@ -513,6 +527,22 @@ def key_for(backend, pid, ch):
     return '{}/{}/{}'.format(backend, POS[pid][2], ch)
 
 
+_file_alpha = st.sampled_from(list('abcXYZ019_-+.') + [' ', '$', '&', '@',
+                                                        '!', '+', '~', '^',
+                                                        '{', '}', 'é'])
+
+
+@st.composite
+def file_names(draw):
+    """File arguments become prerequisites too; characters with open
+    findings in the file-name property (C04) are left to that check."""
+    s = ''.join(draw(st.lists(_file_alpha, min_size=1, max_size=6)))
+    if s in ('.', '..') or s.strip() == '' or s[0] in '~-' or \
+            s[1:2] == ':':
+        s = 'f' + s
+    return s.rstrip(' ') or 'f'
+
+
 @st.composite
 def cases(draw):
     values = {}
@@ -525,6 +555,8 @@ def cases(draw):
             values[pid] = 'v' + pid.lower()
         elif pid in DIR_POS:
             values[pid] = draw(dir_names())
+        elif pid in FILE_POS:
+            values[pid] = draw(file_names())
         else:
             values[pid] = draw(arg_strings())
     if values['P13i'] == values['P13l']:
